@@ -367,7 +367,9 @@ class ModuleFinder:
                 if module_path.exists():
                     return path.name, module_path
             return path.name, path
-        if path.exists():
+        # A file that is not a Python module (a data file or a script named like a package, for example)
+        # is not what was asked for.
+        if path.exists() and path.suffix in self.accepted_py_module_extensions:
             if path.stem == "__init__":
                 return path.parent.name, path
             return path.stem, path
